@@ -224,6 +224,21 @@ fn blocking_case<const N: usize>(id: String, mut rng: Rng, event_idx: bool, indi
             let _ = l.dev.set_used_flags(v);
             c.step(format!("queue usedflags v={}", v), format!("ok | - | {}", l.priv_str()));
         }
+        // the caller's own interrupt-suppression setting: a blocking request must leave it alone
+        if rng.chance(1, 3) {
+            let en = rng.chance(1, 2);
+            l.q.set_dev_notify(en);
+            let mut toks: Vec<String> = vec![];
+            let _ = hal::take_events();
+            STORE.with(|s| {
+                if let Some(x) = s.borrow_mut().as_mut() {
+                    let _ = std::mem::take(&mut x.events);
+                    toks.extend(x.net_effect());
+                }
+            });
+            c.step(format!("queue notify en={}", en as u8), format!("ok | {} | {}", if toks.is_empty() { "-".to_string() } else { toks.join(" ") }, l.priv_str()));
+        }
+        let flags_before = l.dev.avail_flags().ok();
         let nin = rng.below(3) as usize;
         let nout = if nin == 0 { 1 + rng.below(2) as usize } else { rng.below(3) as usize };
         let ins: Vec<Vec<u8>> = (0..nin).map(|_| { let n = rng.range(1, 40) as usize; rng.bytes(n) }).collect();
@@ -289,6 +304,10 @@ fn blocking_case<const N: usize>(id: String, mut rng: Rng, event_idx: bool, indi
                 format!("ok len={}", len)
             }
         };
+        let flags_after = l.dev.avail_flags().ok();
+        if flags_after != flags_before {
+            c.fail(format!("[C05] add_notify_wait_pop changed the interrupt-suppression word the driver had set: avail.flags {:?} -> {:?}", flags_before, flags_after));
+        }
         c.tag(format!("{:?}", policy).split('(').next().unwrap().to_string());
         c.tag(if notified { "notified" } else { "not-notified" });
         c.step(
